@@ -14,7 +14,7 @@ def Seg.key (g : Seg) : Int × Int × Int × List (Int × Int) := (g.startDTS, g
 def Entry.key : Entry → Option (Int × Int × Int × List (Int × Int)) × Int
   | .gap d => (none, d)
   | .seg g => (some g.key, 0)
-def Seg.okey (g : Seg) : Int × Int × List (Int × Int) := (g.startDTS, g.startNTP, g.parts.map Part.span)
+def Seg.okey (g : Seg) : Int × Int × Bool × List (Int × Int) := (g.startDTS, g.startNTP, g.forced, g.parts.map Part.span)
 
 structure KeyEq (s s' : StreamSt) : Prop where
   sid : s.nextSegmentID = s'.nextSegmentID
@@ -97,8 +97,8 @@ theorem KeyEq_rpS {v : Variant} {s s' : StreamSt} (h : KeyEq s s') (c c' : List 
       · rw [r.nextSegment, r'.nextSegment]
         simp only [Option.map_some, Option.some.injEq]
         simp only [Seg.okey, Prod.mk.injEq] at hk ⊢
-        obtain ⟨k1, k2, k3⟩ := hk
-        refine ⟨k1.symm, k2.symm, ?_⟩
+        obtain ⟨k1, k2, kf, k3⟩ := hk
+        refine ⟨k1.symm, k2.symm, kf.symm, ?_⟩
         simp only [segWithPart]
         split
         · simp only [List.map_append, k3, List.map_cons, List.map_nil, Part.span, closePart, hpk]
@@ -110,7 +110,7 @@ theorem closed_key {v : Variant} {o o' : Seg} {p p' : Part} (hk : o'.okey = o.ok
     (c c' : List PartTrack) (d : Int) :
     (closeSeg (segWithPart v o (closePart p c d)) d).key = (closeSeg (segWithPart v o' (closePart p' c' d)) d).key := by
   simp only [Seg.okey, Prod.mk.injEq] at hk
-  obtain ⟨k1, k2, k3⟩ := hk
+  obtain ⟨k1, k2, _, k3⟩ := hk
   simp only [Seg.key, closeSeg, segWithPart, Prod.mk.injEq]
   refine ⟨k1.symm, trivial, k2.symm, ?_⟩
   split
@@ -137,7 +137,7 @@ theorem KeyEq_rsS {v : Variant} {n : Nat} {s s' : StreamSt} (h : KeyEq s s') (hi
       apply appendSeg_key h.segs
       simp only [Seg.okey, Prod.mk.injEq] at hk
       simp only [Seg.key, closeSeg, Prod.mk.injEq]
-      exact ⟨hk.1.symm, trivial, hk.2.1.symm, hk.2.2.symm⟩
+      exact ⟨hk.1.symm, trivial, hk.2.1.symm, hk.2.2.2.symm⟩
     · obtain ⟨p, hp⟩ := Option.isSome_iff_exists.1 ((hi.partIff hv).1 (by rw [ho]; rfl))
       obtain ⟨p', hp', hpk⟩ := opt_map_some (hp ▸ h.part)
       have r := (rsS_fmp4 (n := n) c d ntp f hv ho hp).1
@@ -290,7 +290,7 @@ theorem TgInv_of_key {s r : StreamSt} (h : TgInv s) (hk : KeyEq r s) (h3 : r.tar
   · intro o ho q hq
     obtain ⟨o', ho', hko⟩ := opt_map_some (ho ▸ hk.opn)
     simp only [Seg.okey, Prod.mk.injEq] at hko
-    have : q.span ∈ o'.parts.map Part.span := by rw [hko.2.2]; exact List.mem_map_of_mem hq
+    have : q.span ∈ o'.parts.map Part.span := by rw [hko.2.2.2]; exact List.mem_map_of_mem hq
     obtain ⟨q', hq', hs⟩ := List.mem_map.1 this
     have hd : q.duration = q'.duration := by
       simp only [Part.span, Prod.mk.injEq] at hs; simp only [Part.duration, hs.1, hs.2]
